@@ -270,6 +270,10 @@ impl TypedReprRef<'_> {
                 }
             },
             RefLarge(words) => {
+                if chunk_count == 1 {
+                    // the only chunk is the number itself, whatever the chunk width
+                    return vec![Repr::from_buffer(Buffer::from(words))];
+                }
                 let mut buffers = Vec::<Buffer>::new();
                 let word_per_chunk = math::ceil_div(chunk_bits, WORD_BITS_USIZE);
                 buffers.resize_with(chunk_count, || {
@@ -389,6 +393,7 @@ impl Repr {
     }
 
     fn from_chunks(chunks: &[&[Word]], chunk_bits: usize) -> Self {
+        assert!(chunk_bits > 0);
         if let Some(max_len) = chunks.iter().map(|words| words.len()).max() {
             // allocate an extra word for shifting
             let result_len = max_len + (chunks.len() - 1) * chunk_bits + 1;
